@@ -76,11 +76,12 @@ def chk(batches, rule, text, **kw):
 
 
 CHECKS = {
-    "C01": chk([e1("crash", 3), e1("crash", 1, amb=1), e1("seq", 1)], CRASH_RULE,
+    "C01": chk([e1("crash", 3), e1("crash", 1, amb=1), e1("seq", 1), e1("conc", 1, faults=1)], CRASH_RULE,
                "Seeded search over histories; inside each sampled (history, operation) the crash/error point is swept over "
                "every storage call of the operation (exhaustive per case); oracle: a fresh party sees exactly the old "
                "versions or the complete new one, versions dense, table writable. Separate batch with lost/duplicated "
-               "responses on the publishing call.",
+               "responses on the publishing call, and a batch of concurrent rounds with crashes/errors (every acknowledged commit "
+               "is exactly one version whose content is its transaction applied to the previous version).",
                required_probes=["x-calls"]),
     "C02": chk([e2(3), e2(1, amb=1), e1("conc", 1)], E2_RULE,
                "Seeded search over interleavings of writers/readers on each atomic commit handler with injected errors, "
@@ -137,6 +138,12 @@ CHECKS = {
     "C37": chk([e1("seq", 1)], SEQ_RULE, "Partial claim (history part): after every commit reader/writer flags match contents (deletion files, stable row ids, config, base paths) and every data file carries the table's storage version."),
     "C19": chk([e1("seq", 1)], SEQ_RULE, "Seeded histories that grow/delete/update/compact/optimize exact scalar indices; every random predicate returns the same rows with and without the index."),
     "C20": chk([e1("seq", 1)], SEQ_RULE, "As C19 for zone-map, bloom-filter and n-gram indices with random parameters."),
+    "C22": chk([e1("seq", 3, stable=0), e1("seq", 1, stable=1)], SEQ_RULE + "; tables carry a fixed-size-list<f32> column (dimension drawn from {2,3,5,8,13}, NULL vectors, duplicates) and histories include IVF_FLAT index creation (1-3 partitions, L2 or cosine) and optimisation",
+               "Seeded histories with deletes, updates, appends after indexing, compaction and index optimisation; after every step 6 random nearest() queries (flat, or indexed probing every partition; random k, metric, pre-filter): returned rows are live and pass the filter, reported distances equal the recomputed ones, ascending, count = min(k, candidates) and the k-th distance equals the brute-force k-th distance.",
+               required_probes=["knn-queries"]),
+    "C23": chk([e1("seq", 3, stable=0), e1("seq", 1, stable=1)], SEQ_RULE + "; tables carry a small-vocabulary text column (empty, NULL, unicode, repeated words) and histories include inverted-index creation (positions on, no stemming/stop words) and optimisation",
+               "Seeded histories with deletes, updates, appends after indexing, compaction and index optimisation; after every step 6 random full-text queries (match-any, match-all, phrase; 1-3 terms): the returned document set equals the model's evaluation over the tokenised live documents and scores are non-increasing.",
+               required_probes=["fts-queries"]),
     "C24": chk([e1("conc", 1, stable=0)], CONC_RULE, "Index creation/optimisation racing with column rewrites and compaction in all commit orders; indexed = unindexed query results afterwards.",
                required_probes=["overlapped", "txn-committed"]),
     "C30": chk([e3("io", 3), e3("io", 1, faults=1), e3("io", 1, drop=1)], IO_RULE,
@@ -172,7 +179,7 @@ CHECKS = {
 }
 
 # properties whose checks are registered in MANIFEST.json (clean on the unchanged tree)
-REGISTERED = ["C01", "C02", "C03", "C04", "C05", "C06", "C07", "C08", "C09", "C10", "C11", "C12", "C13", "C14", "C15", "C16", "C17", "C18", "C19", "C20", "C24", "C30", "C31", "C33", "C36", "C37", "C38", "C39", "C41", "C42"]
+REGISTERED = ["C01", "C02", "C03", "C04", "C05", "C06", "C07", "C08", "C09", "C10", "C11", "C12", "C13", "C14", "C15", "C16", "C17", "C18", "C19", "C20", "C22", "C23", "C24", "C30", "C31", "C33", "C36", "C37", "C38", "C39", "C41", "C42"]
 
 PURE = "pure function of its inputs: no task, timer, storage call, clock, fault or second party for a scheduler or fault injector to decide (DESIGN.md section 6)"
 NOT_APPLICABLE = {
